@@ -182,7 +182,9 @@ def run(c, facts, tier):
         seqs = g.body_seq(fb)
         p0 = unwrap(seqs[0]) if seqs else None
         proj_ok = True
+        had_proj = False
         while p0 is not None and p0["t"] == "map":
+            had_proj = True
             # Result::map(|(list, _)| list): projection of the collected list
             f = p0["f"]
             if not (f["k"] == "closure" and len(f["params"]) == 1):
@@ -210,8 +212,20 @@ def run(c, facts, tier):
                 # the value returned: out.first() / last / [0] of the collected vector
                 ret = fb["ret"]
                 acc_ok = False
-                if ret is not None and len(fb["steps"]) == 1 and fb["steps"][0]["pat"]["k"] == "ident":
-                    outname = fb["steps"][0]["pat"]["name"]
+                outname = None
+                if len(fb["steps"]) == 1:
+                    pt = fb["steps"][0]["pat"]
+                    while pt["k"] in ("typed", "ref"):
+                        pt = pt["pat"]
+                    if pt["k"] == "ident" and had_proj:
+                        outname = pt["name"]
+                    elif pt["k"] == "tuple" and len(pt["elems"]) == 2 and not had_proj:
+                        # `let (list, _end) = repeat_till(..).parse_next(input)?`: the first component is the collected list
+                        e0 = pt["elems"][0]
+                        while e0["k"] in ("typed", "ref"):
+                            e0 = e0["pat"]
+                        outname = e0.get("name") if e0["k"] == "ident" else None
+                if ret is not None and outname is not None:
                     base, chain = rx.method_chain(rx.peel(ret))
                     ms = [m for m, _, _ in chain if m not in ("unwrap", "to_owned", "clone", "?", "cloned", "expect")]
                     if rx.is_var(base, outname) and ms in (["first"], ["last"], ["pop"], ["into_iter", "next"], ["iter", "next"]):
@@ -537,7 +551,7 @@ def run(c, facts, tier):
         gd = guards.get(word)
         ok = False
         if gd is not None:
-            gs = [unwrap(x) for x in flat_alts(gd)]
+            gs = [g.open(x) for x in flat_alts(g.open(gd))]
             has_blank = any(x["t"] == "set" and x["min"] >= 1 and peg.cs_subset(x["cs"], blank) and peg.cs_subset(blank, x["cs"]) for x in gs)
             has_eof = any(x["t"] == "eof" for x in gs)
             ok = has_blank and has_eof and len(gs) == 2
@@ -561,7 +575,24 @@ def run(c, facts, tier):
     # lex-whole
     lexfn = an.role("lex")
     lfb = b.fn_ir(lexfn)
-    body = unwrap(lfb["tail"]) if lfb["tail"] is not None and not lfb["steps"] else None
+    # two spellings: `core.map(|(tokens, _)| tokens).parse_next(input)` or `let (tokens, _) = core.parse_next(input)?; Ok(tokens)`
+    body, lexproj = None, None
+    if lfb["tail"] is not None and not lfb["steps"] and not lfb["unknown"]:
+        body = unwrap(lfb["tail"])
+        n_ = body
+        if n_["t"] == "map":
+            f_ = n_["f"]
+            lexproj = False
+            if f_["k"] == "closure" and len(f_["params"]) == 1:
+                prm = rx.closure_params(f_)[0]
+                lexproj = prm["k"] == "tuple" and len(prm["elems"]) == 2 and prm["elems"][0]["k"] == "ident" and rx.is_var(rx.closure_body(f_), prm["elems"][0]["name"])
+        else:
+            lexproj = True
+    elif lfb["tail"] is None and len(lfb["steps"]) == 1 and not lfb["unknown"] and lfb["ret"] is not None:
+        body = unwrap(lfb["steps"][0]["p"])
+        bnd = g.bindings(lfb)
+        rv = rx.var_name(lfb["ret"])
+        lexproj = rv is not None and rv in bnd and unwrap(bnd[rv])["t"] == "reptill"
     ok = None
     detail = "lex body not recognised"
     if body is not None:
@@ -612,27 +643,13 @@ def run(c, facts, tier):
             okapi, det = False, det + "; extra statements: %s" % [src(x)[:60] for x in pre]
     c.ob("C01.api", pubk, "parse() returns the inner result untouched", okapi, det)
     infb = facts.fn(innerk)
+    from . import c06
+
+    S = c06.inner_summary(b, infb)
+    okr = bool(S.ret) and len(S.ret) == 2 and S.ret[1]["v"] == "applied" and S.ret[1]["fn"] == entry and not S.unknown
     tl = rx.tail_expr(infb.body)
-    okr = False
-    if tl is not None and tl["k"] == "call" and rx.path_str(tl["f"]) == "Ok" and tl["args"] and tl["args"][0]["k"] == "tuple" and len(tl["args"][0]["elems"]) == 2:
-        second = tl["args"][0]["elems"][1]
-        base, chain = rx.method_chain(second)
-        ms = [m_ for m_, _, _ in chain]
-        okr = ms in (["parse_next", "?"],) and rx.is_var(tl["args"][0]["elems"][0])
     c.ob("C01.api", innerk, "the tree returned is the precedence parser's result", okr, "tail `%s`" % (src(tl)[:100] if tl else None))
-    # lex: the closure after the repetition is the projection on the token list
-    lb = lfb["tail"] if lfb["tail"] is not None else None
-    okproj = None
-    n_ = lb
-    while n_ is not None and n_["t"] in ("ctx", "cut"):
-        n_ = n_["p"]
-    if n_ is not None and n_["t"] == "map":
-        f_ = n_["f"]
-        if f_["k"] == "closure" and len(f_["params"]) == 1:
-            prm = rx.closure_params(f_)[0]
-            okproj = prm["k"] == "tuple" and len(prm["elems"]) == 2 and prm["elems"][0]["k"] == "ident" and rx.is_var(rx.closure_body(f_), prm["elems"][0]["name"])
-    elif n_ is not None:
-        okproj = True
+    okproj = lexproj
     c.ob("C01.lex-whole", lexfn, "lex returns the collected tokens unchanged", okproj, "closure after repeat_till is the projection |(tokens, _)| tokens: %s" % okproj)
     if tier == "thorough":
         engine_crosscheck(c, facts, b, g)
